@@ -66,10 +66,10 @@ func corpus(c *Ctx, max int) []srcFile {
 	}
 	if max > 0 && len(paths) > max {
 		r := rand.New(rand.NewSource(c.Seed))
-		// always keep the template and a seeded sample of the rest
+		// always keep the template and the small hand-written files, and a seeded sample of the rest
 		var keep, rest []string
 		for _, p := range paths {
-			if strings.Contains(p, "/corpus/template/") {
+			if strings.Contains(p, "/corpus/template/") || strings.Contains(p, "/corpus/extra/") {
 				keep = append(keep, p)
 			} else {
 				rest = append(rest, p)
